@@ -6,6 +6,7 @@ import (
 	"go/parser"
 	"go/token"
 	"go/types"
+	"os"
 	"strconv"
 )
 
@@ -63,7 +64,8 @@ func abiSkipLiteral(f *ast.File, fn string) string {
 	return lit
 }
 
-func genNames(t *target, facts map[string]interface{}) error     { return nil }
-func genSkeletons(t *target, facts map[string]interface{}) error { return nil }
-func genPurity(t *target, facts map[string]interface{}) error    { return nil }
-func genConsts(t *target, facts map[string]interface{}) error    { return nil }
+func genNames(t *target, facts map[string]interface{}) error  { return nil }
+func genPurity(t *target, facts map[string]interface{}) error { return nil }
+func genConsts(t *target, facts map[string]interface{}) error { return nil }
+
+func readFile(path string) ([]byte, error) { return os.ReadFile(path) }
